@@ -28,7 +28,7 @@ def observe(it):
         return it[1] in ("pdotx", "pdorx", "canrx", "modechg")
     if it[0] == "chg":
         return 0x2100 <= it[1] <= 0x21FF
-    return it[0] in ("ok", "err", "ret")
+    return it[0] in ("ok", "err", "ret", "acts")
 
 def run(ctx, pids, quick_edges=14000, walks=(60, 2500), genq=True):
     q = ctx.tier == "quick"
